@@ -202,6 +202,10 @@ func cmdRun(args []string) int {
 		sums, st := gosym.Explore(p, entries, ec)
 		ev.addSolver(st)
 		for _, s := range sums {
+			for why, n := range s.Degraded {
+				fmt.Printf("NOTE property=%s harness=%s reduced coverage on %d paths: %s\n", *prop, s.Name, n, why)
+				ev.Problems = append(ev.Problems, fmt.Sprintf("%s: reduced coverage on %d paths: %s", s.Name, n, why))
+			}
 			ev.addBlocks(p, s)
 			ev.addHarness(s)
 			if *verbose {
